@@ -30,6 +30,8 @@ def go_append(ex, s, elems):
 
 
 def builtin(ex, g, fr, name, args, call):
+    if name in ("len", "cap") and isinstance(args[0], Opaque):
+        return args[0].len
     if name == "len":
         x = args[0]
         if isinstance(x, Slice):
@@ -60,6 +62,12 @@ def builtin(ex, g, fr, name, args, call):
         if isinstance(x, Ptr):
             return len(x.cont[x.idx])
         raise Unsupported("cap of %r" % (x,))
+    if name == "append" and (isinstance(args[0], Opaque) or isinstance(args[1], Opaque)):
+        from .exec import arith
+        a, b = args
+        la = a.len if isinstance(a, (Opaque, Slice)) else 0
+        lb = b.len if isinstance(b, (Opaque, Slice)) else (len(b) if isinstance(b, tuple) else 0)
+        return Opaque(arith(ex, "+", la, lb, 64, True))
     if name == "append":
         s, t = args
         if isinstance(t, tuple):
